@@ -164,6 +164,7 @@ type World struct {
 	turnLog    []int
 	curBuckets int
 	scanBefore map[string]bool
+	allConns   []*Conn
 	res        *RunResult
 	orderPos   int
 	cands      [maxTasks]cand
@@ -896,6 +897,21 @@ func (w *World) clientStep(c *simClient) {
 		if w.plan.Knobs.Frag && len(c.cuts) == 0 && c.pos < len(c.plan.Items) && c.plan.Items[c.pos].Op == "" && len(c.plan.Items[c.pos].Cuts) == 0 &&
 			!c.plan.Items[c.pos].NoReply && len(c.pending) < max(c.plan.Depth, 1) && !w.plan.Knobs.Turns && w.tape.Next(2) == 0 {
 			it := &c.plan.Items[c.pos]
+			if len(it.Args) > 0 {
+				switch strings.ToUpper(string(it.Args[0])) {
+				case "CLIENT":
+					if len(it.Args) > 1 {
+						switch strings.ToUpper(string(it.Args[1])) {
+						case "KILL":
+							w.fault("client-kill-command")
+						case "UNBLOCK":
+							w.fault("client-unblock-command")
+						}
+					}
+				case "FLUSHALL", "FLUSHDB":
+					w.fault("flush-command")
+				}
+			}
 			op := &Op{Client: c.idx, Idx: c.pos, Item: it, Invoke: w.step, Return: -1, TInvoke: w.Now(), ConnGen: c.connGen}
 			w.history = append(w.history, op)
 			w.stats.Cmds++
@@ -994,6 +1010,21 @@ func (w *World) clientStep(c *simClient) {
 				}
 			}
 			data = EncodeCmd(args)
+		}
+		if len(it.Args) > 0 {
+			switch strings.ToUpper(string(it.Args[0])) {
+			case "CLIENT":
+				if len(it.Args) > 1 {
+					switch strings.ToUpper(string(it.Args[1])) {
+					case "KILL":
+						w.fault("client-kill-command")
+					case "UNBLOCK":
+						w.fault("client-unblock-command")
+					}
+				}
+			case "FLUSHALL", "FLUSHDB":
+				w.fault("flush-command")
+			}
 		}
 		op := &Op{Client: c.idx, Idx: c.pos, Item: it, Invoke: w.step, Return: -1, TInvoke: w.Now(), ConnGen: c.connGen}
 		if c.connInst != nil && c.connInst.closed && c.connInst.closedStep < w.step {
@@ -1113,6 +1144,7 @@ func (w *World) connect(c *simClient) bool {
 	c.connGen++
 	conn := newConn(w.nconn, addr, fmt.Sprintf("10.0.0.%d:%d", c.idx+1, 40000+w.nconn), &w.step)
 	conn.yield = func(site string) { w.sched.park(nil, site) }
+	w.allConns = append(w.allConns, conn)
 	if !w.net.dial(addr, conn) {
 		w.logf("C c%d connect-refused", c.idx)
 		return false
@@ -1356,6 +1388,14 @@ func clipS(s string, n int) string {
 }
 
 func (w *World) teardown() {
+	for _, cn := range w.allConns {
+		if n := cn.splitCount(); n > 0 {
+			if w.stats.Faults == nil {
+				w.stats.Faults = map[string]int{}
+			}
+			w.stats.Faults["reply-write-split"] += n
+		}
+	}
 	// everything passes through from now on; real mutexes do their own job
 	w.sched.releaseAll()
 	for _, c := range w.clients {
